@@ -173,6 +173,40 @@ def run(tier):
             a["card"] = {"t": "none", "a": 0, "b": 0}
             cfg["args"].append(a)
         blocks.append((cfg, [{"n": "Define", "mode": "groups"}]))
+    # the same with sub-group arguments (Handler::addArgument( key, subHandler, desc)): the key of a sub-group argument of one
+    # member against an ordinary or a sub-group key of ANOTHER member, in both definition orders, further definitions in both
+    # members behind the clash (all other keys are unrelated to each other, every member's own keys are distinct)
+    nsubclash = 0
+    for _ in range(60 if tier == "quick" else 1500):
+        r_ = g.r
+        l = r_.choice(["in", "input", "out", "output", "verbose", "num"]); sc = r_.choice("cdefg")
+        form = r_.randrange(5)
+        # (first key, second key): same long / same short / both-key against long-only / both-key against short-only / no clash
+        k1, k2 = [((ord(sc), T(l)), (ord(r_.choice("hij")), T(l))), ((ord(sc), T(l)), (ord(sc), T(l + "x"))), ((ord(sc), T(l)), (0, T(l))),
+                  ((ord(sc), T(l)), (ord(sc), [])), ((ord(sc), T(l)), (ord(r_.choice("hij")), T(l + "x")))][form]
+        if r_.random() < 0.5:
+            k1, k2 = k2, k1
+        kinds = r_.choice([("int", "sub"), ("sub", "int"), ("sub", "sub")])
+        fill = [(ord(ch), T(w)) for ch, w in zip("pqrstu", ["alpha", "beta", "gamma", "delta", "eps", "zeta"])]
+        r_.shuffle(fill)
+        seq = [(fill.pop(), "int", r_.randrange(2)) for _ in range(r_.randint(0, 2))]
+        seq.append((k1, kinds[0], 0))
+        seq += [(fill.pop(), "int", r_.randrange(2)) for _ in range(r_.randint(0, 1))]
+        seq.append((k2, kinds[1], 1))
+        seq += [(fill.pop(), "int", r_.choice([0, 1, 1])) for _ in range(r_.randint(0, 2))]
+        swap = r_.random() < 0.5                        # which member is created first
+        cfg = {"abbr": True, "endvalues": False, "hcons": [], "args": [], "lenient": True}
+        for n_, ((s_, l_), kind, grp) in enumerate(seq):
+            a = arggen.new_arg("int"); a["s"], a["l"], a["init"], a["grp"] = s_, l_, -(n_ + 1), (1 - grp) if swap else grp
+            a["card"] = {"t": "none", "a": 0, "b": 0}
+            if kind == "sub":
+                inner = arggen.new_arg("flag"); inner["s"] = ord("Z"); inner["card"] = {"t": "none", "a": 0, "b": 0}
+                a["kind"] = "sub"; a["init"] = False; a["subctor"] = 0
+                a["sub"] = {"abbr": True, "endvalues": False, "hcons": [], "args": [inner]}
+            cfg["args"].append(a)
+        blocks.append((cfg, [{"n": "Define", "mode": "groups"}]))
+        nsubclash += 1
+    c.notes.append("T (keys of sub-group arguments across members): %d key tables" % nsubclash)
     script2 = os.path.join(c.wd, "random.ndjson")
     write_cases(script2, blocks)
     run_script(c, exe, script2, "T")
